@@ -20,6 +20,14 @@ def make_scenario(rng, knobs):
     model, groups_by_nick = gen.gen_apps(rng, specs, **knobs.get('apps', {}))
     for spec in specs:
         spec['groups'] = groups_by_nick[spec['nick']]
+    if knobs.get('mismatch_p') and len(specs) > 1 and rng.random() < knobs['mismatch_p']:
+        # one instance is configured with a different strategy: it must end up isolated, never admitted
+        odd = rng.choice(specs)
+        name = rng.choice(['auto_fence', 'starting_strategy', 'conciliation_strategy', 'supvisors_failure_strategy'])
+        pool = {'auto_fence': ['true', 'false'], 'starting_strategy': gen.STARTING,
+                'conciliation_strategy': gen.CONCILIATION, 'supvisors_failure_strategy': ['CONTINUE', 'RESYNC']}[name]
+        others = [v for v in pool if v != options.get(name)]
+        odd['options'] = {name: rng.choice(others)}
     scenario = {'instances': specs, 'options': options, 'model': model, 'rules_xml': gen.rules_xml(model),
                 'sched': gen.gen_sched(rng, specs, knobs.get('profiles')),
                 'behaviours': knobs.get('behaviours', {})}
@@ -386,6 +394,7 @@ class Run:
         scn = self.scenario
         return {'instances': [(s['nick'], s['node'], s['port']) for s in scn['instances']],
                 'options': scn['options'], 'sched': scn['sched'].get('name'),
+                'instance_options': {s['nick']: s['options'] for s in scn['instances'] if s.get('options')},
                 'apps': {a: {'managed': m['managed'], 'programs': list(m['programs'])}
                          for a, m in scn['model'].items()},
                 'boot': self.script['boot'],
